@@ -141,6 +141,17 @@ func (g *Gen) mergeStates(ps []epParent) *State {
 func (g *Gen) havocAll(s *State, alsoLocal map[string]bool) *State {
 	ep := g.newEpoch(epHavoc)
 	ep.parent = s
+	if len(g.escaped) > 0 {
+		// local cells whose address was boxed into an interface value earlier
+		m := map[string]bool{}
+		for k := range alsoLocal {
+			m[k] = true
+		}
+		for k := range g.escaped {
+			m[k] = true
+		}
+		alsoLocal = m
+	}
 	ep.mod = alsoLocal
 	g.havocAllSeen = true
 	if g.dry == 0 {
